@@ -94,7 +94,10 @@ CUSTOM_AT = [("Excl", r"^\s*go(\s|$)", "enable_exclusion"),
              # patterns that also match an empty parameter string (a blank pattern field is
              # stored as "")
              ("ExcludeOff", "", "disable_exclusion"),
-             ("ExcludeOn", r"^\s*(on)?\s*$", "enable_exclusion")]
+             ("ExcludeOn", r"^\s*(on)?\s*$", "enable_exclusion"),
+             # patterns without an anchor: they are matched at the start of the parameters
+             ("Object", "start", "enable_exclusion"),
+             ("Object", "stop", "disable_exclusion")]
 
 _WORD = re.compile(r"([A-Za-z])([-+]?[0-9]*\.?[0-9]+)")
 
@@ -717,7 +720,10 @@ class MotionGen(object):
                                    ("Excl", "going"), ("ExcludeRegion", "anything"),
                                    ("ExcludeRegion", ""), ("Other", "stop"), ("Excl", ""),
                                    ("ExcludeOff", ""), ("ExcludeOn", ""), ("ExcludeOn", "on"),
-                                   ("ExcludeOff", "now"), ("ExcludeOn", "off")])
+                                   ("ExcludeOff", "now"), ("ExcludeOn", "off"),
+                                   ("Object", "stop"), ("Object", "start 3"),
+                                   ("Object", "nonstop 1"), ("Object", "restart-count 3"),
+                                   ("Object", "id=7 stop")])
         else:
             cmd, par = rng.choice([("ExcludeRegion", "disable"), ("ExcludeRegion", "enable"),
                                    ("ExcludeRegion", "off"), ("ExcludeRegion", "on"),
